@@ -10,6 +10,8 @@ from props import redeem_common as rc
 PROP = "C12"
 LEVEL = "proof"
 IMPORTS = ["Ty.Ty", "Core.Prog", "Redeem.Finalize", "Redeem.Run"]
+IMPORTS_FULL = ["Ty.Ty", "Core.Prog", "Redeem.Finalize", "Redeem.Run", "Redeem.RunIhr"]
+FULL_MAX_NODES = 70      # the end-to-end model of the pruning routes is evaluated on programs up to this size
 U, BIT = pg.U, pg.BIT
 ROUTES = {100: "construct+finalize_unpruned", 101: "construct+finalize_pruned", 102: "human-readable+finalize_unpruned",
           103: "human-readable+finalize_pruned", 104: "decode"}
@@ -179,6 +181,67 @@ def stream_bits(m, order):
     return bits
 
 
+def full_expr(c):
+    m = c.meta
+    return "run_c12_full %s" % rc.tprog_coq(m["prog"], m["arrows"])
+
+
+def split_full(v):
+    """{101: chunk, 103: chunk} of the output of Redeem/RunIhr.v run_c12_full"""
+    out = {}
+    pos = 0
+    try:
+        for mk in (101, 103):
+            if v[pos] != mk:
+                return None
+            pos += 1
+            st = pos
+            if v[pos] == 0:
+                m = v[pos + 2]
+                pos += 3 + m
+                k = v[pos]
+                pos += 1
+                for _ in range(k):
+                    pos += 2 + v[pos + 1]
+            elif v[pos] == 1:
+                pos += 2
+            else:
+                pos += 1
+            out[mk] = v[st:pos]
+        return out if pos == len(v) else None
+    except IndexError:
+        return None
+
+
+def project_full(r, n):
+    """the same chunks from the harness output (None for a route that the model does not cover)"""
+    d = rc.parse_c12(r)
+    if d is None:
+        return None
+    r106 = d.get(106, [])
+    classes = []
+    for k in range(0, len(r106), n):
+        classes += [x if x < n else i for i, x in enumerate(r106[k:k + n])]
+    out = {}
+    for mk in (101, 103):
+        o = d.get(mk)
+        if o is None:
+            return None
+        k = o["kind"]
+        if k == 0 and not o.get("walk_failed"):
+            ch = [0, 0, len(classes)] + classes + [len(o["items"])]
+            for idx, bits in o["items"]:
+                ch += [idx, len(bits)] + list(bits)
+            out[mk] = ch
+        elif k == 1 and o.get("err") != 80:
+            out[mk] = [1, o["err"]]
+        elif k == 9:
+            out[mk] = [9]
+        else:
+            out[mk] = None        # not applicable / refused by the text parser: outside the model
+    return out
+
+
 def gen_cases(rng, tier, binary, workdir):
     cases = []
     stats = {"structures": 0, "ill_typed_structures": 0, "no_witness": 0}
@@ -207,6 +270,11 @@ def gen_cases(rng, tier, binary, workdir):
         p = rc.gen_structure(r, depth, opts)
         if len(p) <= 120:
             structs.append((k, p))
+    # the shape of finding F-C08 with a witness under the shared node (kept apart in the statistics)
+    nsh = 40 if tier == "quick" else 400
+    for k in range(nsh):
+        structs.append((100000 + k, rc.gen_shared_witness(rng.fork("sh%d" % k))))
+    stats["shared_witness_structures"] = nsh
     arrows = rc.get_arrows(binary, [p for _k, p in structs], workdir)
     for (k, p), ar in zip(structs, arrows):
         stats["structures"] += 1
@@ -406,13 +474,18 @@ def finding_match(c, r, cls):
 
 # ------------------------------------------------------------ driver
 def run(rep, tier, rng):
-    vplib.proof_stage(rep, "Props/C12.v", extra_targets=["Redeem/Run.vo"], translators=())
+    vplib.proof_stage(rep, "Props/C12.v", extra_targets=["Redeem/Run.vo", "Redeem/RunIhr.vo"],
+                      translators=("xlate_consts.py", "xlate_ivs.py", "xlate_jets.py"))
     rep.coverage["trusted_base"] = vplib.GENERIC_TRUSTED + [
         "models Redeem/Finalize.v, Redeem/Routes.v written by hand from node/construct.rs (finalize_unpruned, finalize_pruned), "
         "node/redeem.rs (decode: DecodeFinalizer; prune: Finalizer), human_encoding/named_node.rs (Populator), value.rs (prune, "
         "zero, is_of_type)",
-        "final arrows of every node are taken from the implementation (`prog arrows`) and handed to the model as data; a Value is "
-        "modelled as (type, structural value); the witness order of the decode route is read from the implementation",
+        "final arrows of every node of the UNPRUNED program are taken from the implementation (`prog arrows`) and handed to the "
+        "model as data; a Value is modelled as (type, structural value); the witness order of the decode route is read from the "
+        "implementation.  For the pruning routes the first model (Redeem/Run.v) still takes the identity classes per round from the "
+        "implementation; the second one (Redeem/RunIhr.v) computes them, the re-inferred types and the shrunk witnesses itself",
+        "Redeem/CodecBridge.v ties the witness stream of this family to C01's (Codec/WitnessCodec.v) and to the program bits "
+        "(Codec/Main.v canonical_roundtrip, Codec/RealJets.v for the Elements jet code); Codec files are another family's",
         "SharingNotMaximal verdicts of the decode route (substituted values make two nodes identical) are not modelled",
         "the logos lexer / parser of the human-readable encoding is exercised, not modelled (the route is modelled from the "
         "witness map onwards)",
@@ -452,9 +525,52 @@ def run(rep, tier, rng):
             impl[c.cid] = pr
         else:
             impl[c.cid] = r
+    # second model: the pruning routes end to end (Redeem/PruneIhr.v: identity classes of every round computed in Coq,
+    # re-inference by the reference of C04, witness shrinking): rounds, kept witnesses AND their bits
+    sample = [c for k, c in enumerate(cases) if len(c.meta["prog"]) <= FULL_MAX_NODES
+              and (tier != "quick" or c.cid.startswith("g1000") or c.cid.startswith("corpus") or k % 4 == 0)]
+    if len(sample) > 3000:      # thorough tier: bound the evaluation time; corpus and shared-witness cases first
+        first = [c for c in sample if c.cid.startswith("g1000") or c.cid.startswith("corpus")]
+        rest = [c for c in sample if not (c.cid.startswith("g1000") or c.cid.startswith("corpus"))]
+        sample = (first + rest[::max(1, len(rest) // max(1, 3000 - len(first)))])[:3000]
+    vals2, logs2 = vplib.coq_eval(IMPORTS_FULL, [full_expr(c) for c in sample], workdir=rep.workdir(), tag="c12f",
+                                  batch=max(8, min(60, (len(sample) + 15) // 16)))
+    t3 = time.time()
+    bad2 = [l for l in logs2 if l]
+    if bad2:
+        raise vplib.Infra("evaluation of the end-to-end model failed in Coq:\n" + bad2[0][-3000:])
+    n_full = n_routes = 0
+    for c, v in zip(sample, vals2):
+        if v is None or c.cid not in model:
+            continue
+        mv = split_full(v)
+        iv = project_full(full.get(c.cid), len(c.meta["prog"]))
+        if mv is None or iv is None:
+            model[c.cid] = list(model[c.cid]) + [777, -1]
+            impl[c.cid] = list(impl[c.cid]) + [777, -2]
+            continue
+        n_full += 1
+        mm, ii = [777], [777]
+        for mk in (101, 103):
+            if iv[mk] is None:
+                continue
+            n_routes += 1
+            mm += [mk] + list(mv[mk])
+            ii += [mk] + list(iv[mk])
+        model[c.cid] = list(model[c.cid]) + mm
+        impl[c.cid] = list(impl[c.cid]) + ii
     cor = rep.coverage.setdefault("correspondence", {})
     cor["impl_eval_s"] = round(t1 - t0, 2)
     cor["model_eval_s"] = round(t2 - t1, 2)
+    cor["end_to_end_model_eval_s"] = round(t3 - t2, 2)
+    cor["end_to_end_model"] = {
+        "what": "Redeem/RunIhr.v run_c12_full: finalize_pruned (routes 101/103) = finalize_unpruned + RedeemNode::prune with the "
+                "identity classes of every round computed in Coq (Merkle/Ihr.v, SHA-256), re-inference by Infer.infer and witness "
+                "shrinking; compared: outcome, classes of every round, kept witness nodes and the BITS of every kept witness",
+        "cases": n_full, "of": len(cases), "routes_compared": n_routes,
+        "rule": "programs with at most %d nodes (quick tier: every shared-witness case and every fourth other case); a route "
+                "refused by the parser of the text format is outside the model" % FULL_MAX_NODES,
+    }
 
     def pc(c, _r):
         return check_old(c, full.get(c.cid)) if c.kind == "c12old" else check_full(c, full.get(c.cid))
@@ -539,5 +655,8 @@ def replay(obj):
     print("implementation:", r)
     print("projected     :", rc.project_c12(r))
     print("model         :", vals[0] if vals else logs)
+    vals2, logs2 = vplib.coq_eval(IMPORTS_FULL, [full_expr(case)], workdir=wd, tag="replayf")
+    print("projected (end-to-end model of the pruning routes):", project_full(r, len(prog)))
+    print("end-to-end model                                  :", split_full(vals2[0]) if vals2 and vals2[0] else logs2)
     print("property      :", check_full(case, r))
     return 0
